@@ -298,6 +298,15 @@ def fast_path_chars(model):
                         isinstance(c.func, ast.Name) and
                         c.func.id == fi.name for c in ast.walk(n.test)):
                     caller = (g, n)
+        if caller is None and isinstance(node, ast.For):
+            # not a predicate helper: the function that renders one var
+            # block tests the characters itself (for ... if c in t: break
+            # / else: return t) and calls the escaper
+            esc = _escaper(model).where
+            if any(isinstance(c, ast.Call) and
+                   esc in model.callee_names(c, fi)
+                   for c in own_nodes(fi.node)):
+                return fi, node, chars, None
         if caller is None:
             raise AnalysisError('fast-path predicate helper is never '
                                 'tested')
@@ -552,7 +561,7 @@ def _scenario_polarity(model, rb, helper, node, kind='str'):
     that renders one var block) for a str value in the 3-element form.
     -> {p: (paths, paths without the escaper, paths with it)}"""
     loops = [n for n in own_nodes(rb.node) if isinstance(n, ast.For)
-             and any(x is node for x in ast.walk(n))]
+             and n is not node and any(x is node for x in ast.walk(n))]
     fi = rb
     if loops:
         body, start = loops[0].body, _FS()
